@@ -4,7 +4,7 @@
    C10_wf_reflect); every query theorem is stated for EVERY ts with WFh ts, so that the constructors handled elsewhere
    (descriptor loading C12, merge C13, JSON C02) only have to establish WFh to inherit them.
    `below ts a d`: d is a, or a proper descendant of a, in the declared supertype relation. *)
-From Cassis Require Import Base TS TSProofs.
+From Cassis Require Import Base TS TSProofs TSProofs2.
 
 (* ---- the invariant: holds for TypeSystem(), preserved by every operation of every history ---- *)
 (* (that init_ts is what TypeSystem() builds now is checked by vm_compute against a run-time dump on every ./check C10) *)
@@ -66,6 +66,58 @@ Theorem C10_is_instance_of_agrees_with_subsumes : forall ts a p, WFh ts -> In a 
   exists r, is_instance_of ts (t_name a) (t_name p) = Ok r /\ ts_subsumes ts (t_name p) (t_name a) = Ok r /\ subsumes_ty ts p a = Ok r.
 Proof. exact is_instance_of_agrees_with_subsumes. Qed.
 Print Assumptions C10_is_instance_of_agrees_with_subsumes.
+
+(* ... also when the two types are named by any spelling get_type accepts (full name or unique dot-free short name):
+   for two names resolving to different types, is_instance_of(child, parent) = subsumes(parent, child) = the declared
+   relation between the resolved types (the child's name may be short unless it is the root's) ... *)
+Theorem C10_is_instance_of_by_name : forall ts sa sp a p, WFh ts ->
+  get_type ts sa = Ok a -> get_type ts sp = Ok p -> sp <> EmptyString ->
+  t_name a <> t_name p -> (t_name a = TOP -> sa = TOP) ->
+  exists r, is_instance_of ts sa sp = Ok r /\ ts_subsumes ts sp sa = Ok r /\ (r = true <-> below ts (t_name p) (t_name a)).
+Proof. exact is_instance_of_by_name. Qed.
+Print Assumptions C10_is_instance_of_by_name.
+
+(* ... in particular for a registered type and a parent given by its short name *)
+Theorem C10_is_instance_of_short_parent : forall ts a p sp, WFh ts -> In a ts ->
+  get_type ts sp = Ok p -> sp <> EmptyString -> t_name a <> t_name p ->
+  exists r, is_instance_of ts (t_name a) sp = Ok r /\ ts_subsumes ts sp (t_name a) = Ok r /\
+            (r = true <-> below ts (t_name p) (t_name a)).
+Proof. exact is_instance_of_short_parent. Qed.
+Print Assumptions C10_is_instance_of_short_parent.
+
+(* ... and a name get_type refuses (unknown, ambiguous) is refused by is_instance_of on either side *)
+Theorem C10_is_instance_of_unresolved_child : forall ts sa sp e,
+  get_type ts sa = Err e -> sp <> EmptyString -> sa <> sp -> sa <> TOP -> is_instance_of ts sa sp = Err e.
+Proof. exact is_instance_of_unresolved_child. Qed.
+Print Assumptions C10_is_instance_of_unresolved_child.
+
+Theorem C10_is_instance_of_unresolved_parent : forall ts sa sp a e,
+  get_type ts sa = Ok a -> get_type ts sp = Err e -> sp <> EmptyString -> sa <> TOP -> is_instance_of ts sa sp = Err e.
+Proof. exact is_instance_of_unresolved_parent. Qed.
+Print Assumptions C10_is_instance_of_unresolved_parent.
+
+(* The side conditions above are needed: is_instance_of compares the two STRINGS before any lookup.  On the type system
+   a.A < Annotation, a.B < a.A: two spellings of one type are not instances of each other although subsumes holds; an
+   unregistered string is an instance of itself; uima.cas.TOP is silently not an instance of an unknown name nor of
+   "TOP"; the child spelled "TOP" raises AttributeError.  (Full-strength statement "is_instance_of = subsumes on all
+   names" is refuted by these; a finding, see the report.) *)
+Theorem C10_is_instance_of_all_names_refuted :
+  wfhb quirk_ts = true /\
+  ts_subsumes quirk_ts "A" "a.A" = Ok true /\ is_instance_of quirk_ts "a.A" "A" = Ok false /\
+  is_instance_of quirk_ts "A" "a.A" = Ok false /\
+  is_instance_of quirk_ts "no.Such" "no.Such" = Ok true /\ ts_subsumes quirk_ts "no.Such" "no.Such" = Err ETypeNotFound /\
+  is_instance_of quirk_ts TOP "no.Such" = Ok false /\
+  ts_subsumes quirk_ts "TOP" TOP = Ok true /\ is_instance_of quirk_ts TOP "TOP" = Ok false /\
+  is_instance_of quirk_ts "TOP" "a.A" = Err EAttribute.
+Proof. exact is_instance_of_string_quirks. Qed.
+Print Assumptions C10_is_instance_of_all_names_refuted.
+
+(* non-vacuity: short spellings of parent and child, outside the string shortcuts *)
+Example C10_is_instance_of_by_name_computes :
+  is_instance_of quirk_ts "a.B" "A" = Ok true /\ is_instance_of quirk_ts "B" "Annotation" = Ok true /\
+  is_instance_of quirk_ts "a.A" "B" = Ok false /\ is_instance_of quirk_ts "a.B" "TOP" = Ok true /\
+  is_instance_of quirk_ts "a.B" "Nope" = Err ETypeNotFound /\ is_instance_of quirk_ts "Nope" "a.B" = Err ETypeNotFound.
+Proof. exact is_instance_of_by_name_computes. Qed.
 
 (* the downward (descendants) and the upward (subsumes) implementation describe the same tree *)
 Theorem C10_descendants_agree_with_subsumes : forall ts a b, WFh ts -> In a ts -> In b ts ->
